@@ -6,6 +6,7 @@ import warnings
 import numpy as np
 
 import common as C
+from gen_emp import SharedArg
 import quad_common as Q
 
 INF = float("inf")
@@ -80,10 +81,23 @@ def run(seed, tier, replay=None):
             warnings.simplefilter("ignore")
             try:
                 d = QD(a, b, c, convex)
-                cdf = d.cdf(np.array(ys))
-                pdf = d.pdf(np.array(ys))
-                ppf = d.ppf(np.array(qs))
+                # the caller's arrays: ONE float64 array of query points (with points outside the support and the infinities) goes into
+                # cdf and then pdf, one array of levels into ppf, as in `grid = np.linspace(..); d.cdf(grid); d.pdf(grid)`; each must be
+                # bit-identical afterwards, and each call is judged at the numbers the caller put there
+                Y, QQ = SharedArg(ys), SharedArg(qs)
+                cdf = d.cdf(Y.obj)
+                dmg = [("cdf", Y.changed_by("cdf(ys)"))]
+                pdf = d.pdf(Y.obj)
+                dmg.append(("pdf", Y.changed_by("pdf(ys)")))
+                ppf = d.ppf(QQ.obj)
+                dmg.append(("ppf", QQ.changed_by("ppf(qs)")))
                 mean, var = d.mean, d.variance
+                rep.count("shared_query_array:cdf,pdf(float64 ys) ppf(float64 qs)")
+                for name, dm in dmg:
+                    if dm:
+                        rep.violate(what=f"{name} modified the caller's query array in place (the next call with the same array is evaluated on what it "
+                                         "left there)", input=dict(inp, **({"ys": hx(ys)} if name != "ppf" else {"qs": hx(qs)})), observed=dm,
+                                    call=f"x = np.array(...); QuadraticDistribution.{name}(x); x")
             except Exception as e:
                 rep.violate(what="a documented method raised on an input of the property's domain", error=repr(e),
                             input=dict(inp, ys=hx(ys), qs=hx(qs)), call="QuadraticDistribution")
